@@ -37,6 +37,8 @@ fn main() {
         ("signer", "record") => s_signer::record(seed, &tier, &out),
         ("envelope", "replay") => s_envelope::replay(&inp, &tier),
         ("envelope", "record") => s_envelope::record(seed, &tier, &out),
+        ("config", "replay") => s_config::replay(&inp, arg(&args, "--workdir").unwrap_or("/tmp")),
+        ("config", "record") => s_config::record(seed, &tier, &out, arg(&args, "--workdir").unwrap_or("/tmp")),
         ("selfcheck", _) => println!("{{\"rec\":\"ok\"}}"),
         (s, m) => {
             eprintln!("unknown suite/mode {} {}", s, m);
